@@ -10,7 +10,8 @@ from vlib.conds.c08 import grammar_tags, P2
 cfg_canonical = enc.cfg_canonical
 L = 3
 
-NAMESETS = [["S", "A"], ["#STARTUNION#", "#VARPOSCLOS#"], ["S#SUBS#0", "S"], ["#STARTCLOS#", "#STARTCONC#"]]
+NAMESETS = [["S", "A"], ["#STARTUNION#", "#VARPOSCLOS#"], ["S#SUBS#0", "S"], ["#STARTCLOS#", "#STARTCONC#"],
+            ["S", "#STARTCLOS#"], ["S", "#STARTCONC#"]]
 # second operand: None = the same object; otherwise productions with codes 0,1 = variables (S, A), 2,3 = a, b
 SECOND = [None, [], [(0, [])], [(0, [2])], [(0, [3])], [(0, [2, 0]), (0, [])], [(0, [1]), (1, [3])],
           [(0, [0, 0]), (0, [2])]]
@@ -69,13 +70,13 @@ def _oracle(args, obs):
 def c10_ops(t: P2, p: int, names: int, second: int) -> bool:
     """
     pre: pinned(p=p, h0=t[0], l0=t[1], names=names, second=second)
-    pre: ((0 <= p) & (p <= 2)) & ((0 <= names) & (names < 4)) & ((0 <= second) & (second < 8))
+    pre: ((0 <= p) & (p <= 2)) & ((0 <= names) & (names < 6)) & ((0 <= second) & (second < 8))
     pre: cfg_canonical(t, p, 2, 2, 2)
     post: _
     """
     raw = (t, p, names, second)
     prods = enc.decode_cfg(t, p, 2, 2, 2)
-    nm = NAMESETS[enc.pick(names, 4)]
+    nm = NAMESETS[enc.pick(names, 6)]
     sec = SECOND[enc.pick(second, 8)]
     chx.enter("c10_ops", raw)
     from pyformlang.cfg import Terminal
@@ -94,9 +95,11 @@ def _sh(tier):
     if tier == "quick":
         return [{"p": 1, "names": 0, "second": 0}, {"p": 1, "names": 1, "second": 6}] + \
             product_pins(p=[2], h0=[0], l0=[0, 1, 2], names=[0, 1], second=[0, 3, 6]) + \
-            product_pins(p=[2], h0=[0], l0=[1, 2], names=[2], second=[3, 6])
+            product_pins(p=[2], h0=[0], l0=[1, 2], names=[2], second=[3, 6]) + \
+            product_pins(p=[2], h0=[0], l0=[2], names=[4, 5], second=[3])
     return product_pins(p=[0, 1], names=[0, 1, 2, 3], second=list(range(8))) + \
-        product_pins(p=[2], h0=[0, 1], l0=[0, 1, 2], names=[0, 1, 2, 3], second=list(range(8)))
+        product_pins(p=[2], h0=[0, 1], l0=[0, 1, 2], names=[0, 1, 2, 3], second=list(range(8))) + \
+        product_pins(p=[2], h0=[0, 1], l0=[0, 1, 2], names=[4, 5], second=[0, 3, 6])
 
 
 FUNCS = ["CFG.substitute", "CFG.union", "CFG.concatenate", "CFG.get_closure", "CFG.get_positive_closure",
@@ -106,10 +109,10 @@ RULE = "first operand has a production and a non-empty language up to length 3"
 CONDS = [
     Cond("C10", c10_ops, _sh,
          {"quick": "G1: grammars with 1-2 productions over 2 variables/{a,b}, bodies <=2 (2 productions: first head = "
-                   "start symbol), variable names {S,A}, {#STARTUNION#,#VARPOSCLOS#} or {S#SUBS#0,S}; G2 in {G1 itself, S->a, "
+                   "start symbol), variable names {S,A}, {#STARTUNION#,#VARPOSCLOS#}, {S#SUBS#0,S} or (first body of length 2) {S,#STARTCLOS#} / {S,#STARTCONC#}; G2 in {G1 itself, S->a, "
                    "S->A A->b (shared names)}; union, concatenate, get_closure, get_positive_closure, reverse, "
                    "substitute(a -> G2); languages compared on words of length <=3",
-          "thorough": "all 904 G1 x 4 name sets x 8 second operands (same object, empty, eps-only, S->a, S->b, "
+          "thorough": "all 904 G1 x 4 name sets x 8 second operands (+ 2 name sets with a non-start variable named like a fresh start symbol x 3 second operands) (same object, empty, eps-only, S->a, S->b, "
                       "S->aS|eps, S->A A->b, S->SS|a); also | + ~"},
          FUNCS, RULE,
          assumptions=["languages compared on all words of length <= 3 (oracle fixpoint on extracted productions)"]),
